@@ -1,6 +1,7 @@
 import AmaranthVerif.Proofs.IoBufSim
 import AmaranthVerif.Proofs.IoBufBuffer
 import AmaranthVerif.Proofs.IoBufUse
+import AmaranthVerif.Proofs.IoBufReal
 
 /-!
 # C18 — I/O buffers apply direction, inversion and registering exactly per bit
@@ -13,6 +14,26 @@ and polarity; `obsOf`: a value as its list of bits) and `Refines` are in `Proofs
 Every theorem is for all widths (including 0), all inversion tuples, all directions, all port
 expressions, all input values and all event / placement sequences. The `example`s are tests on
 literals that show the hypotheses are satisfiable and the statements non-trivial.
+
+Real ports. The model follows the vendor-neutral lowering in `lib/io.py` (`Buffer.elaborate` /
+`FFBuffer.elaborate` without a platform `get_io_buffer`; `build/plat.py` defines none):
+* `buffer_real_single`, `buffer_real_diff` (all three directions, `i` included), `buffer_real_diff_input`:
+  which `IOBufferInstance`s there are, on which pads, what they drive and what `i` shows; the inversion is
+  an XOR between the buffer's signals and the cell, in both directions;
+* `buffer_real_single_use`, `buffer_real_diff_use`: on a port whose pads are pairwise different, every pad of a
+  single-ended port and every `p` pad of a differential port is claimed by exactly one cell; every `n` pad by
+  exactly one cell (an output cell carrying the complement) when the buffer drives, and by **no** cell when it
+  is an input buffer — the generic lowering listens on the true half only. For those pads the property's
+  "used by exactly one buffer cell" holds as "at most one"; this is what the code does, the netlist
+  comparison of the check sees exactly these cells, and it is stated here rather than hidden;
+* `ffbuffer_real_registers(_diff)`, `ffbuffer_real_one_stage(_diff)`, `ffbuffer_real_no_edge`,
+  `ffbuffer_real_cells`: `FFBuffer` on a
+  real port — the cells are those of the inner `Buffer` (no others; the registers are fabric flip-flops), the
+  pads show `o`/`oe` of the most recent `o_domain` edge, `i` shows the pads (XOR the inversion) as they were at
+  the most recent `i_domain` edge; with one clock: exactly one stage each way. (There is no loop-back on
+  pads: `i` of a bidirectional buffer is whatever is on the pad.) What is *not* modelled for real ports is the
+  netlist itself (flip-flop cells, their clock nets): that `FlipFlop` cells sit where `realStep` says is
+  correspondence only, checked by evaluating the elaborated netlist at power-on and after one edge.
 -/
 
 namespace Amaranth.C18
@@ -253,7 +274,7 @@ example : FFBuffer.run .o [true] FFState.init [⟨⟨1, true, 0⟩, false, false
 example : FFBuffer.run .i [true, false] FFState.init [⟨⟨0, false, 0b10⟩, true, true⟩, ⟨⟨0, false, 0b01⟩, true, true⟩]
     = [⟨none, none, some 0b11⟩, ⟨none, none, some 0b00⟩] := by decide
 
-/-! ## buffers on real ports: fabric-side inversion, single use -/
+/-! ## buffers on real ports: fabric-side inversion, which pads carry a cell -/
 
 /-- `Buffer` on a `SingleEndedPort`: one cell on exactly the port's pads, in the buffer's
 direction; the pads carry `o[k] XOR invert[k]`, `i[k]` is `pad[k] XOR invert[k]` — the inversion
@@ -267,20 +288,154 @@ theorem buffer_real_single {β : Type} (bdir : Dir) (p : SEPort β) (o : Nat) (o
     exact ⟨_, _, rfl, rfl, rfl, by simp only [Option.map, toBits_xorInv, Spec.padO]; simp, by simp,
       by simp only [Option.map, toBits_xorInv, Spec.padI]; simp⟩
 
-/-- `Buffer` on a `DifferentialPort`: the `p` half as above; when driving, a second output cell on
-the `n` half carries the complement -/
-theorem buffer_real_diff {β : Type} (bdir : Dir) (hb : bdir ≠ .i) (p : DiffPort β) (o : Nat) (oe : Bool) (pad : Nat) :
+/-- … and, when the pads of the port are pairwise different, each of them is claimed by exactly one cell, which
+the netlist builder accepts -/
+theorem buffer_real_single_use {β : Type} [DecidableEq β] (bdir : Dir) (p : SEPort β) (o : Nat) (oe : Bool) (pad : Nat)
+    (hnd : p.io.Nodup) :
+    claimsOf (Buffer.single bdir p o oe pad) = [(p.io, bdir)] ∧
+    (∀ b ∈ p.io, ((Buffer.single bdir p o oe pad).1.map (·.port)).flatten.count b = 1) ∧
+    emitAll [] ((Buffer.single bdir p o oe pad).1.map (·.port)) = .ok p.io.reverse := by
+  have hn : (Buffer.single bdir p o oe pad).1.map (·.port) = claimNets bdir p.io none := by cases bdir <;> rfl
+  have h := claims_exactly_once_single bdir p.io hnd
+  rw [hn]
+  refine ⟨by rw [single_claims]; rfl, h.1, ?_⟩
+  rw [h.2, claimNets_flatten, List.append_nil]
+
+/-- `Buffer` on a `DifferentialPort`, **every** direction. Which cells: one on the `p` half in the buffer's
+direction, and — only when the buffer drives — an output cell on the `n` half (`Spec.padClaims`). What they
+carry: the `p` pads `o[k] XOR invert[k]`, the `n` pads the complement of that, every driving cell the buffer's
+`oe`; `i[k]` is `p_pad[k] XOR invert[k]` whenever the buffer has an `i` (input *and* bidirectional): the
+fabric-side inversion of the input path. The `n` pads are never read. -/
+theorem buffer_real_diff {β : Type} (bdir : Dir) (p : DiffPort β) (o : Nat) (oe : Bool) (pad : Nat) :
+    claimsOf (Buffer.diff bdir p o oe pad) = Spec.padClaims bdir p.p (some p.n) ∧
+    padObsOf p.inv.length (Buffer.diff bdir p o oe pad) =
+      { padO := if bdir = .i then none else some (Spec.padO p.inv (toBits p.inv.length o))
+        padN := if bdir = .i then none else some (Spec.padON p.inv (toBits p.inv.length o))
+        oe := if bdir = .i then none else some oe
+        i := if bdir = .o then none else some (Spec.padI p.inv (toBits p.inv.length pad)) } ∧
+    (∀ c ∈ (Buffer.diff bdir p o oe pad).1, c.oe = (if bdir = .i then none else some oe)) := by
+  refine ⟨diff_claims bdir p o oe pad, ?_, fun c hc => (diff_cells_oe bdir p o oe pad c hc).1⟩
+  rw [diff_refines]
+  cases bdir <;> simp [Spec.padBuffer]
+
+/-- the same for a driving buffer, cell by cell -/
+theorem buffer_real_diff_driving {β : Type} (bdir : Dir) (hb : bdir ≠ .i) (p : DiffPort β) (o : Nat) (oe : Bool) (pad : Nat) :
     ∃ c cn iv, Buffer.diff bdir p o oe pad = ([c, cn], iv) ∧ c.port = p.p ∧ c.dir = bdir ∧
       cn.port = p.n ∧ cn.dir = .o ∧
       c.o.map (toBits p.inv.length) = some (Spec.padO p.inv (toBits p.inv.length o)) ∧
       cn.o.map (toBits p.inv.length) = some (Spec.padON p.inv (toBits p.inv.length o)) ∧
-      c.oe = some oe ∧ cn.oe = some oe := by
+      c.oe = some oe ∧ cn.oe = some oe ∧
+      iv.map (toBits p.inv.length) = (if bdir = .o then none else some (Spec.padI p.inv (toBits p.inv.length pad))) := by
   cases bdir with
   | i => exact absurd rfl hb
   | o => exact ⟨_, _, _, rfl, rfl, rfl, rfl, rfl, by simp only [Option.map, toBits_xorInv, Spec.padO],
-      by simp only [Option.map, toBits_notBits, toBits_xorInv, Spec.padON, Spec.padO], rfl, rfl⟩
+      by simp only [Option.map, toBits_notBits, toBits_xorInv, Spec.padON, Spec.padO], rfl, rfl, rfl⟩
   | io => exact ⟨_, _, _, rfl, rfl, rfl, rfl, rfl, by simp only [Option.map, toBits_xorInv, Spec.padO],
-      by simp only [Option.map, toBits_notBits, toBits_xorInv, Spec.padON, Spec.padO], rfl, rfl⟩
+      by simp only [Option.map, toBits_notBits, toBits_xorInv, Spec.padON, Spec.padO], rfl, rfl,
+      by simp only [Option.map, toBits_xorInv, Spec.padI]; simp⟩
+
+/-- **The differential input path.** An input buffer on a differential port is exactly one cell: on the `p`
+half, listening only (it drives neither `o` nor `oe`); there is no cell on the `n` half; and `i[k]` is
+`p_pad[k] XOR invert[k]` — the inversion is applied in the fabric, after the cell. -/
+theorem buffer_real_diff_input {β : Type} (p : DiffPort β) (o : Nat) (oe : Bool) (pad : Nat) :
+    ∃ c iv, Buffer.diff .i p o oe pad = ([c], some iv) ∧ c.port = p.p ∧ c.dir = .i ∧ c.o = none ∧ c.oe = none ∧
+      toBits p.inv.length iv = Spec.padI p.inv (toBits p.inv.length pad) ∧
+      (∀ k (hk : k < p.inv.length), iv.testBit k = (pad.testBit k ^^ p.inv[k])) := by
+  refine ⟨_, _, rfl, rfl, rfl, rfl, rfl, by simp only [toBits_xorInv, Spec.padI], fun k hk => ?_⟩
+  rw [testBit_xorInv p.inv pad k hk]
+  simp [List.getD_eq_getElem?_getD, List.getElem?_eq_getElem hk]
+
+/-- **Every pad of a differential port, `p` and `n`.** On a port whose pads are pairwise different: every `p`
+pad is claimed by exactly one cell; every `n` pad by exactly one cell when the buffer drives (direction `o` or
+`io`) and by none when it is an input buffer; the netlist builder accepts the cells. -/
+theorem buffer_real_diff_use {β : Type} [DecidableEq β] (bdir : Dir) (p : DiffPort β) (o : Nat) (oe : Bool) (pad : Nat)
+    (hnd : (p.p ++ p.n).Nodup) :
+    (∀ b ∈ p.p, ((Buffer.diff bdir p o oe pad).1.map (·.port)).flatten.count b = 1) ∧
+    (∀ b ∈ p.n, ((Buffer.diff bdir p o oe pad).1.map (·.port)).flatten.count b = if bdir = .i then 0 else 1) ∧
+    emitAll [] ((Buffer.diff bdir p o oe pad).1.map (·.port)) =
+      .ok ((Buffer.diff bdir p o oe pad).1.map (·.port)).flatten.reverse := by
+  have hn : (Buffer.diff bdir p o oe pad).1.map (·.port) = claimNets bdir p.p (some p.n) := by cases bdir <;> rfl
+  rw [hn]
+  exact claims_exactly_once bdir p.p p.n hnd
+
+-- non-vacuity: a 2-bit pair, inversion flags (T,F): input buffer → one cell on the `p` pads, `i = pad ^ 0b01`;
+-- bidirectional → two cells, the `n` half carries the complement
+example : Buffer.diff .i (⟨[10, 11], [20, 21], [true, false], .io⟩ : DiffPort Nat) 3 true 0b10
+    = ([⟨[10, 11], .i, none, none⟩], some 0b11) := by decide
+example : Buffer.diff .io (⟨[10, 11], [20, 21], [true, false], .io⟩ : DiffPort Nat) 0b11 true 0b10
+    = ([⟨[10, 11], .io, some 0b10, some true⟩, ⟨[20, 21], .o, some 0b01, some true⟩], some 0b11) := by decide
+example : ([10, 11] ++ [20, 21] : List Nat).Nodup := by decide
+example : emitAll ([] : List Nat) ((Buffer.diff .i (⟨[10, 11], [20, 21], [true, false], .io⟩ : DiffPort Nat) 0 false 0).1.map (·.port))
+    = .ok [11, 10] := by decide
+
+/-! ## the registered buffer on real ports -/
+
+/-- the `IOBufferInstance`s of `FFBuffer(direction, port)` are those of `Buffer(direction, port)`: same pads, same
+directions, in every state (the registers add no cell), so `buffer_real_single_use` / `buffer_real_diff_use` hold
+for it unchanged -/
+theorem ffbuffer_real_cells {β : Type} (bdir : Dir) (s : FFState) (pad : Nat) :
+    (∀ p : SEPort β, claimsOf (FFBuffer.realOut (Buffer.single bdir p) bdir s pad) = Spec.padClaims bdir p.io none) ∧
+    (∀ p : DiffPort β, claimsOf (FFBuffer.realOut (Buffer.diff bdir p) bdir s pad) = Spec.padClaims bdir p.p (some p.n)) :=
+  ⟨fun p => by rw [ff_real_claims, single_claims], fun p => by rw [ff_real_claims, diff_claims]⟩
+
+/-- **Two named domains, arbitrary event sequences, single-ended port.** After every event the pads carry what the
+combinational buffer makes of the `o`/`oe` captured at the most recent `o_domain` edge, and `i` shows what the
+combinational buffer showed (pads XOR inversion) just before the most recent `i_domain` edge — from any initial
+register contents (`Spec.ffRunPads`). -/
+theorem ffbuffer_real_registers {β : Type} (bdir : Dir) (p : SEPort β) (s : FFState) (es : List FFEvent) :
+    (FFBuffer.realRun (Buffer.single bdir p) bdir s es).map (padObsOf p.inv.length) =
+      Spec.ffRunPads false bdir p.inv (toBits p.inv.length s.oFf) s.oeFf (toBits p.inv.length s.iFf)
+        (es.map (evOf p.inv.length)) :=
+  ff_real_refines false bdir p.inv _ (single_refines bdir p) s es
+
+/-- the same on a differential port (the `n` half follows the `p` half, complemented) -/
+theorem ffbuffer_real_registers_diff {β : Type} (bdir : Dir) (p : DiffPort β) (s : FFState) (es : List FFEvent) :
+    (FFBuffer.realRun (Buffer.diff bdir p) bdir s es).map (padObsOf p.inv.length) =
+      Spec.ffRunPads true bdir p.inv (toBits p.inv.length s.oFf) s.oeFf (toBits p.inv.length s.iFf)
+        (es.map (evOf p.inv.length)) :=
+  ff_real_refines true bdir p.inv _ (diff_refines bdir p) s es
+
+/-- **Exactly one stage on real ports.** With one clock, for every input sequence: what is on the pads and on `i`
+after edge `t` is the combinational buffer's answer to the `o`, `oe` and pad values applied before edge `t`, and
+to nothing earlier. -/
+theorem ffbuffer_real_one_stage {β : Type} (bdir : Dir) (p : SEPort β) (s : FFState) (es : List FFEvent)
+    (h : ∀ e ∈ es, e.tickI = true ∧ e.tickO = true) :
+    (FFBuffer.realRun (Buffer.single bdir p) bdir s es).map (padObsOf p.inv.length) =
+      es.map fun e => Spec.padBuffer false bdir p.inv (toBits p.inv.length e.x.o) e.x.oe (toBits p.inv.length e.x.pi) := by
+  rw [ffbuffer_real_registers, ffRunPads_single]
+  · simp [List.map_map, Function.comp_def, evOf]
+  · intro e he
+    rw [List.mem_map] at he
+    obtain ⟨e', he', rfl⟩ := he
+    exact h e' he'
+
+theorem ffbuffer_real_one_stage_diff {β : Type} (bdir : Dir) (p : DiffPort β) (s : FFState) (es : List FFEvent)
+    (h : ∀ e ∈ es, e.tickI = true ∧ e.tickO = true) :
+    (FFBuffer.realRun (Buffer.diff bdir p) bdir s es).map (padObsOf p.inv.length) =
+      es.map fun e => Spec.padBuffer true bdir p.inv (toBits p.inv.length e.x.o) e.x.oe (toBits p.inv.length e.x.pi) := by
+  rw [ffbuffer_real_registers_diff, ffRunPads_single]
+  · simp [List.map_map, Function.comp_def, evOf]
+  · intro e he
+    rw [List.mem_map] at he
+    obtain ⟨e', he', rfl⟩ := he
+    exact h e' he'
+
+/-- not zero stages: without an edge the pads and `i` keep showing the registers (every port kind) -/
+theorem ffbuffer_real_no_edge {β : Type} (inner : RealBuf β) (s : FFState) (e : FFEvent)
+    (h : e.tickI = false ∧ e.tickO = false) : FFBuffer.realStep inner s e = s := by
+  simp [FFBuffer.realStep, h.1, h.2]
+
+-- non-vacuity: a bidirectional registered buffer on a 2-bit pair, flags (T,F): power-on (registers 0), an input
+-- change without an edge (invisible), then an edge of both domains
+example : FFBuffer.realRun (Buffer.diff .io (⟨[10, 11], [20, 21], [true, false], .io⟩ : DiffPort Nat)) .io FFState.init
+      [⟨⟨0b11, true, 0b10⟩, false, false⟩, ⟨⟨0b11, true, 0b10⟩, true, true⟩]
+    = [([⟨[10, 11], .io, some 0b01, some false⟩, ⟨[20, 21], .o, some 0b10, some false⟩], some 0),
+       ([⟨[10, 11], .io, some 0b10, some true⟩, ⟨[20, 21], .o, some 0b01, some true⟩], some 0b11)] := by decide
+example : FFBuffer.realRun (Buffer.single .i (⟨[10, 11], [true, false], .i⟩ : SEPort Nat)) .i FFState.init
+      [⟨⟨0, false, 0b10⟩, true, false⟩, ⟨⟨0, false, 0b01⟩, false, true⟩]
+    = [([⟨[10, 11], .i, none, none⟩], some 0b11), ([⟨[10, 11], .i, none, none⟩], some 0b11)] := by decide
+
+/-! ## single use across buffers -/
 
 /-- **Single use, any sequence of buffer cells.** The netlist builder accepts a sequence of cells
 iff no pad bit is claimed twice (within one cell or across cells); it then has recorded exactly the
